@@ -26,8 +26,11 @@ use serde::Serialize;
 use std::collections::HashMap;
 use std::marker::PhantomData;
 use std::pin::Pin;
+#[cfg(not(feature = "verif-hooks"))]
 use std::sync::Mutex;
 use std::thread;
+#[cfg(feature = "verif-hooks")]
+use crate::verif_mutex::Mutex;
 
 /// A stream built from an IPC channel.
 pub struct IpcStream<T>(UnboundedReceiver<OpaqueIpcMessage>, PhantomData<T>);
